@@ -521,7 +521,7 @@ def diff_worlds(pre, post):
 # run
 # ---------------------------------------------------------------------------------------------------------------------
 
-def explore(ctx, E, scripts, stricts, ambients, target_limit=None):
+def explore(ctx, E, scripts, stricts, ambients, target_limit=None, ambient_scripts=None):
     """returns the list of pending model checks: (request, real outcome, real post-state, case)"""
     pending = []
     for script in scripts:
@@ -530,6 +530,7 @@ def explore(ctx, E, scripts, stricts, ambients, target_limit=None):
             if script[0] == 'failed_flush' and ending == 'commit': ending = 'exit'
             for strict in stricts:
                 for ambient in ambients:
+                    if ambient and ambient_scripts is not None and script[0] not in ambient_scripts: continue
                     R, how = run_session(E, script, ending, strict)
                     case = {'script': script[0], 'ending': ending, 'strict': strict}
                     if ending in ('commit_fault', 'commit_locked') and how != 'CommitException':
@@ -679,7 +680,9 @@ def run(ctx):
     E = Env(os.path.join(work, 'c32.sqlite'))
     try:
         scripts = SCRIPTS
-        pending = explore(ctx, E, scripts, [False, True], [False, True], target_limit=None if ctx.thorough else 5)
+        # quick tier: the variant 'inside a NEW db_session' for a seed-chosen half of the scripts (all of them in the thorough tier)
+        amb = None if ctx.thorough else set(ctx.rng.sample([n for n, _ in scripts], (len(scripts) + 1) // 2))
+        pending = explore(ctx, E, scripts, [False, True], [False, True], target_limit=None if ctx.thorough else 5, ambient_scripts=amb)
         check_model(ctx, pending)
         witnesses(ctx, E)
         witness_json(ctx, E)
